@@ -1,6 +1,7 @@
 From Coq Require Extraction ExtrOcamlBasic.
 From Coq Require Import FMapPositive.
 From OxiVerif Require Import Base.Conv DD.Table DD.Sem DD.Build DD.Apply Num.I64 Num.F64 DD.ApplyMtbdd.
+From OxiVerif Require DD.MtG DD.MtF64.
 Extraction Language OCaml.
 Extraction "model.ml" conv_anchor
   Table.sem_edge Table.wf_b Table.famz Table.mkSnap Table.mkNode Table.mkEdge Table.nlevels Table.edge_eqb
@@ -14,4 +15,6 @@ Extraction "model.ml" conv_anchor
   ApplyMtbdd.mt_restrict ApplyMtbdd.mt_const ApplyMtbdd.mt_var ApplyMtbdd.mt_eval ApplyMtbdd.mt_ok_b
   ApplyMtbdd.cube_lits
   F64.f64_from_bits F64.f64_normalb F64.f64_add F64.f64_sub F64.f64_mul F64.f64_div
-  F64.f64_min F64.f64_max F64.f64_is_zero F64.f64_is_one F64.f64_is_nan F64.f64_zero F64.f64_one F64.f64_nan.
+  F64.f64_min F64.f64_max F64.f64_is_zero F64.f64_is_one F64.f64_is_nan F64.f64_zero F64.f64_one F64.f64_nan
+  MtF64.f64_alg MtF64.f64m_apply_bin MtF64.f64m_apply_ite MtF64.f64m_restrict MtF64.f64m_const MtF64.f64m_var
+  MtF64.f64m_eval MtF64.f64m_ok_b MtF64.f64m_cube_lits.
